@@ -64,18 +64,65 @@ def read_write(problem, a, ps):
     return reads, writes
 
 
+def crafted_problem():
+    """systematic family for the read/write analysis: quantified conditional effects, quantified preconditions,
+    conditional effects reading another fluent, plain writers -- every plan of <= 3 ground instances is checked"""
+    from unified_planning.shortcuts import (Problem, Fluent, BoolType, IntType, UserType, Object, InstantaneousAction, Variable,
+                                            Exists, Forall, Not, And)
+    L = UserType("L")
+    pr = Problem("crafted_deorder")
+    l1, l2 = Object("l1", L), Object("l2", L)
+    pr.add_objects([l1, l2])
+    opened, marked, flag = Fluent("opened", BoolType(), x=L), Fluent("marked", BoolType(), x=L), Fluent("flag", BoolType())
+    cnt = Fluent("cnt", IntType(0, 5))
+    pr.add_fluent(opened, default_initial_value=True)
+    pr.add_fluent(marked, default_initial_value=False)
+    pr.add_fluent(flag, default_initial_value=False)
+    pr.add_fluent(cnt, default_initial_value=0)
+    v = Variable("v", L)
+    sweep = InstantaneousAction("sweep")
+    sweep.add_effect(marked(v), True, opened(v), forall=(v,))          # forall v: when opened(v) then marked(v)
+    close = InstantaneousAction("close", x=L)
+    close.add_effect(opened(close.parameter("x")), False)
+    unmark = InstantaneousAction("unmark", x=L)
+    unmark.add_effect(marked(unmark.parameter("x")), False)
+    raise_ = InstantaneousAction("raise_flag")
+    raise_.add_precondition(Exists(marked(v), v))                        # quantified precondition
+    raise_.add_effect(flag, True)
+    count = InstantaneousAction("count", x=L)
+    count.add_increase_effect(cnt, 1, marked(count.parameter("x")))     # conditional increase reading marked(x)
+    reset = InstantaneousAction("reset")
+    reset.add_effect(cnt, 0, flag)
+    for a in (sweep, close, unmark, raise_, count, reset):
+        pr.add_action(a)
+    return pr
+
+
 def bounded(tier, seed):
     import networkx as nx
     from unified_planning.plans import SequentialPlan, ActionInstance, PlanKind
     nprob, maxlen, cap = (80, 3, 120) if tier == "quick" else (700, 4, 400)
     failures, evals, nontrivial, samples = [], 0, set(), []
-    feats = {"objfluent": 0.0, "max_actions": 3, "undefined": 0.0}
-    for s, pr in SC.problems(seed + 41, nprob, features=feats):
+    feats = {"objfluent": 0.0, "max_actions": 3, "undefined": 0.0, "forall_effects": 0.5, "conditional": 0.6, "numeric": 0.4}
+    def problem_stream():
+        yield "crafted", crafted_problem()
+        yield from SC.problems(seed + 41, nprob, features=feats)
+    for s, pr in problem_stream():
         gas = seqsem.ground_actions(pr)
-        rng = random.Random(s)
+        rng = random.Random(s if isinstance(s, int) else 0)
         init = seqsem.initial_state(pr)
         # valid plan prefixes by DFS on the reference semantics (no goal requirement: executability + same final state)
         plans = []
+        if s == "crafted":           # exhaustive: every executable plan of 2..3 instances
+            for L_ in (2, 3):
+                for cand in itertools.product(gas, repeat=L_):
+                    st_ = init
+                    for (a_, ps_) in cand:
+                        st_ = seqsem.successor(pr, st_, a_, ps_)
+                        if st_ is None:
+                            break
+                    if st_ is not None:
+                        plans.append((list(cand), st_))
 
         def dfs(prefix, st):
             if len(plans) >= cap:
@@ -93,7 +140,8 @@ def bounded(tier, seed):
                     continue
                 if s2 is not None:
                     dfs(prefix + [(a, ps)], s2)
-        dfs([], init)
+        if s != "crafted":
+            dfs([], init)
         for plan, final in plans:
             ais = [ActionInstance(a, tuple(ps)) for a, ps in plan]
             desc = {"problem": str(pr), "plan": [f"{a.name}({','.join(o.name for o in ps)})" for a, ps in plan]}
